@@ -238,6 +238,94 @@ def gen_tree(rnd: random.Random, pool: list[str], depth: int, *, arbitrary: bool
             gen_tree(rnd, pool, depth - 1, arbitrary=arbitrary, closure=closure, hostile_p=hostile_p)]
 
 
+def _fold(op: str, items: list) -> list:
+    t = items[0]
+    for x in items[1:]:
+        t = [op, t, x]
+    return t
+
+
+def _balanced(op: str, items: list) -> list:
+    if len(items) == 1:
+        return items[0]
+    mid = len(items) // 2
+    return [op, _balanced(op, items[:mid]), _balanced(op, items[mid:])]
+
+
+def large_tree(rnd: random.Random, kmax: int = 80, shape: int | None = None) -> list:
+    """Far beyond the size of the random trees: unions of 20-80 ranges assembled by long left folds or balanced
+    folds of `|`, intersections of many `!=` clauses, both combined and complemented; alternating folds
+    (((l1 | l2) & l3) | l4) ... of up to 80 steps.  Bounds are drawn from a sorted ladder so that most ranges
+    stay disjoint and the unions really grow; some rungs coincide / touch."""
+    k = rnd.choice([x for x in (20, 30, 50, 80, 120) if x <= kmax] or [kmax])
+    if shape is not None and shape < 0:   # the first large tree of a shard: the two biggest operands under `&`
+        k, shape = kmax, 7
+    ep = rnd.choice(["", "", "1!"])
+    rungs = sorted({(rnd.randint(0, 3 * k), rnd.choice([0, 0, 1, 5, 10])) for _ in range(3 * k)})
+    vs = [f"{ep}{a}.{b}" for a, b in rungs]
+
+    def ranges(n, start):
+        out = []
+        i = start
+        while len(out) < n and i + 1 < len(vs):
+            lo, hi = vs[i], vs[i + 1]
+            out.append(["leaf", f"{rnd.choice(['>=', '>'])}{lo},{rnd.choice(['<', '<='])}{hi}"])
+            i += rnd.choice([1, 2, 2, 2, 3])
+        rnd.shuffle(out)
+        return out
+
+    def union(n, start):
+        items = ranges(n, start)
+        return (_fold if rnd.random() < 0.5 else _balanced)("or", items) if items else ["empty"]
+
+    if shape is None:
+        shape = rnd.randrange(9)
+    if shape == 8:
+        # a big union meets small operands placed at its joints: below its first range, across its first
+        # bound, starting exactly at (inclusive / exclusive) a range's start or end, inside a gap, beyond the end
+        u = union(k, rnd.choice([0, 1, 2]))
+        mid = rnd.sample(vs[1:-1], min(6, max(1, len(vs) - 2)))
+        probes = [f"<{vs[0]}", f"<={vs[0]}", f">={vs[0]},<{vs[1]}", f">{vs[-1]}", f">={vs[-1]}", f"=={vs[0]}"]
+        if ep:
+            probes += ["<1", ">=0.5,<2"]          # the whole epoch-0 line lies below an epoch-1 union
+        else:
+            probes += ["<0.0.1", ">=0.dev1,<=0"]
+        for v in mid:
+            probes += [f">{v}", f">={v}", f"<{v}", f"<={v}", f"=={v}", f"!={v}", f">{v},<{vs[min(len(vs) - 1, vs.index(v) + 2)]}"]
+        rnd.shuffle(probes)
+        items = []
+        for ptxt in probes[:14]:
+            leaf = ["leaf", ptxt]
+            op = rnd.choice(["or", "or", "and"])
+            items.append([op, u, leaf] if rnd.random() < 0.6 else [op, leaf, u])
+        return _fold(rnd.choice(["and", "or"]), items)
+    if shape == 7:
+        u1, u2 = union(k, 0), union(k, rnd.randint(0, 3))
+        return ["or", ["and", u1, u2], ["and", u2, u1]]
+    if shape == 0:
+        return [rnd.choice(["and", "or"]), union(k, 0), union(k, rnd.randint(0, 3))]
+    if shape == 1:
+        return ["not", union(k, 0)]
+    if shape == 2:
+        return ["and", union(k, 0), ["not", union(k // 2, rnd.randint(0, 5))]]
+    if shape == 3:   # many exclusions: a comma text and a fold of != leaves must agree with the interval model
+        pts = rnd.sample(vs, min(len(vs), k))
+        t = _fold("and", [["leaf", f"!={v}"] for v in pts])
+        return [rnd.choice(["and", "or"]), t, union(k // 2, 0)]
+    if shape == 4:   # alternating fold
+        items = ranges(k, 0) + [["leaf", f"!={v}"] for v in rnd.sample(vs, 5)]
+        rnd.shuffle(items)
+        t = items[0]
+        for i, x in enumerate(items[1:]):
+            t = ["or" if i % 2 == 0 else "and", t, x] if rnd.random() < 0.8 else ["or", t, ["not", x]]
+        return t
+    if shape == 5:   # De Morgan on big operands
+        u1, u2 = union(k // 2, 0), union(k // 2, 1)
+        return ["and", ["not", ["and", u1, u2]], ["or", ["not", u1], ["not", u2]]]
+    u = union(k, 0)
+    return ["and", ["or", u, ["not", u]], ["not", ["not", u]]]
+
+
 def tree_size(t: list) -> int:
     return 1 + sum(tree_size(c) for c in t[1:] if isinstance(c, list))
 
